@@ -59,37 +59,37 @@ theorem included_eq_read (t : Src) : (save [] t).included = readItems t := (funn
 /-- **Main theorem**: the transcription of the backup command meets the executable statement -/
 theorem backupCmd_specOK (abs : Bool) (t : Src) :
     specOK t (backupCmd abs t).1 (backupCmd abs t).2.included = true := by
-  unfold backupCmd specOK runBackup
+  unfold backupCmd specOK runBackup runBackupErr
   simp only [included_eq_read]
   have he := errors_iff_unread t
   by_cases hu : unreadItems t = []
   · have h0 : (save [] t).errors = [] := he.mpr hu
-    cases abs <;> by_cases hr : readItems t = [] <;> simp [hr, hu, h0, List.all_eq_true]
+    cases abs <;> by_cases hr : readItems t = [] <;> simp [hr, hu, h0, List.all_eq_true, exitCode]
   · have h0 : (save [] t).errors ≠ [] := fun h => hu (he.mp h)
     have hl : (save [] t).errors.length > 0 := List.length_pos_iff.mpr h0
-    cases abs <;> by_cases hr : readItems t = [] <;> simp [hr, hu, hl, List.all_eq_true]
+    cases abs <;> by_cases hr : readItems t = [] <;> simp [hr, hu, hl, List.all_eq_true, exitCode]
 
 /-- exit status 3 exactly when a snapshot was saved and the error callback ran (or a target was skipped) -/
 theorem incomplete_iff (targetsSkipped archErr : Bool) (rootNodes errors : Nat) :
     (runBackup targetsSkipped archErr rootNodes errors).exit = 3 ↔
       (runBackup targetsSkipped archErr rootNodes errors).snapshot = true ∧ (errors > 0 ∨ targetsSkipped = true) := by
-  unfold runBackup
-  cases targetsSkipped <;> cases archErr <;> by_cases h1 : rootNodes = 0 <;> by_cases h2 : errors > 0 <;> simp [h1, h2]
+  unfold runBackup runBackupErr
+  cases targetsSkipped <;> cases archErr <;> by_cases h1 : rootNodes = 0 <;> by_cases h2 : errors > 0 <;> simp [h1, h2, exitCode]
 
 /-- exit status 0 exactly when a snapshot was saved and nothing was reported or skipped -/
 theorem success_iff (targetsSkipped archErr : Bool) (rootNodes errors : Nat) :
     (runBackup targetsSkipped archErr rootNodes errors).exit = 0 ↔
       (runBackup targetsSkipped archErr rootNodes errors).snapshot = true ∧ errors = 0 ∧ targetsSkipped = false := by
-  unfold runBackup
-  cases targetsSkipped <;> cases archErr <;> by_cases h1 : rootNodes = 0 <;> by_cases h2 : errors > 0 <;> simp [h1, h2] <;> omega
+  unfold runBackup runBackupErr
+  cases targetsSkipped <;> cases archErr <;> by_cases h1 : rootNodes = 0 <;> by_cases h2 : errors > 0 <;> simp [h1, h2, exitCode] <;> omega
 
 /-- a backup in which every source item was read exits 0 with a snapshot of all of them -/
 theorem all_read_exit0 (abs : Bool) (t : Src) (h : unreadItems t = []) (hne : readItems t ≠ []) :
     (backupCmd abs t).1 = ⟨0, true⟩ ∧ (backupCmd abs t).2.included = readItems t := by
-  unfold backupCmd runBackup
+  unfold backupCmd runBackup runBackupErr
   have he := (errors_iff_unread t).mpr h
   have hlen : (readItems t).length ≠ 0 := fun h' => hne (List.length_eq_zero_iff.mp h')
-  cases abs <;> simp [included_eq_read, he, hlen]
+  cases abs <;> simp [included_eq_read, he, hlen, exitCode]
 
 /-- any reached source item that could not be read completely makes the command report it -/
 theorem unreadable_invokes_error (abs : Bool) (t : Src) (p : Path) (h : p ∈ unreadItems t) :
@@ -98,8 +98,8 @@ theorem unreadable_invokes_error (abs : Bool) (t : Src) (p : Path) (h : p ∈ un
   have he : (save [] t).errors ≠ [] := fun h' => hne ((errors_iff_unread t).mp h')
   refine ⟨he, ?_⟩
   have hl : (save [] t).errors.length > 0 := List.length_pos_iff.mpr he
-  unfold backupCmd runBackup
-  cases abs <;> by_cases h0 : (save [] t).included.length = 0 <;> simp [h0, hl]
+  unfold backupCmd runBackup runBackupErr
+  cases abs <;> by_cases h0 : (save [] t).included.length = 0 <;> simp [h0, hl, exitCode]
 
 /-- an entry that vanished between the directory listing and the first lstat is no source item:
     it produces no report, no node, and leaves the result for the other entries unchanged -/
@@ -131,6 +131,48 @@ theorem runBackup_order :
     Gen.runBackup_calls.findIdx (· == "errors.IsFatal") < Gen.runBackup_calls.findIdx (· == "arch.Snapshot") ∧
     Gen.runBackup_calls.findIdx (· == "arch.Snapshot") < Gen.runBackup_calls.findIdx (· == "progressReporter.Finish") ∧
     Gen.runBackup_calls.getLast? = some "progressReporter.Finish" := by decide
+
+/-- how the exit codes of the model are written in the Go source -/
+def codeLit : Nat → String
+  | 0 => "0"
+  | 1 => "1"
+  | 3 => "3"
+  | _ => "?"
+
+/-- the exit-code switch of `main` as regenerated from the source: its case expressions (third
+    switch of the function) paired with the literals assigned in the same order — the eight literals
+    that follow the last string literal of `main`; the very last literal is the `0` of `exitCode != 0` -/
+def exitTableGen : List (String × String) :=
+  Gen.main_exit_cases.zip ((Gen.main_literals.drop (Gen.main_literals.length - 9)).take 8)
+
+/-- **T1: the exit-status table.** The switch has a case for `ErrInvalidSourceData`; it comes right
+    after `err == nil`, before every `errors.Is` case and before `default`; its exit code is 3 (shared
+    only with forget's "failed to remove snapshots"); success is 0; the fall-through taken by fatal
+    errors is 1 — and the model's `exitCode` is this table. -/
+theorem exit_table :
+    Gen.main_exit_cases = ["err == nil", "err == ErrInvalidSourceData", "errors.Is(err, ErrFailedToRemoveOneOrMoreSnapshots)",
+      "errors.Is(err, global.ErrNoRepository)", "repository.IsAlreadyLocked(err)", "errors.Is(err, repository.ErrNoKeyFound)",
+      "errors.Is(err, context.Canceled)", "default"] ∧
+    Gen.main_literals.drop (Gen.main_literals.length - 9) = ["0", "3", "3", "10", "11", "12", "130", "1", "0"] ∧
+    exitTableGen.lookup "err == nil" = some (codeLit (exitCode .nil)) ∧
+    exitTableGen.lookup "err == ErrInvalidSourceData" = some (codeLit (exitCode .invalidSourceData)) ∧
+    exitTableGen.lookup "default" = some (codeLit (exitCode .fatal)) ∧
+    exitCode .invalidSourceData = 3 ∧
+    Gen.main_exit_cases.findIdx (· == "err == ErrInvalidSourceData") < Gen.main_exit_cases.findIdx (· == "default") ∧
+    (exitTableGen.filter (·.2 == "3")).map (·.1) = ["err == ErrInvalidSourceData", "errors.Is(err, ErrFailedToRemoveOneOrMoreSnapshots)"] := by decide
+
+/-- `runBackup`: a skipped target is recognised with `errors.Is(err, ErrInvalidSourceData)`; the
+    `arch.Error` callback (the only place besides that which clears `success`) reports through
+    `progressReporter.Error(item, err)` and escalates fatal errors, and is installed before
+    `arch.Snapshot`; a snapshot error becomes `errors.Fatalf("unable to save snapshot: …")`.
+    (The assignment `success = false` itself is not a call and is tied by the correspondence runs.) -/
+theorem runBackup_callback_shape :
+    Gen.runBackup_callargs.contains "errors.Is(err, ErrInvalidSourceData)" = true ∧
+    Gen.runBackup_callargs.findIdx (· == "errors.Is(err, ErrInvalidSourceData)") < Gen.runBackup_callargs.findIdx (· == "errors.IsFatal(err)") ∧
+    (Gen.runBackup_callargs.filter (· == "progressReporter.Error(item, err)")).length = 2 ∧
+    Gen.runBackup_callargs.findIdx (· == "errors.IsFatal(err)") < Gen.runBackup_callargs.findIdx (· == "arch.Snapshot(ctx, targets, snapshotOpts)") ∧
+    Gen.runBackup_callargs.findIdx (· == "arch.Snapshot(ctx, targets, snapshotOpts)") < Gen.runBackup_callargs.findIdx (· == "errors.Fatalf(\"unable to save snapshot: %v\", err)") ∧
+    Gen.runBackup_callargs.findIdx (· == "errors.Fatalf(\"unable to save snapshot: %v\", err)") < Gen.runBackup_callargs.length := by decide
 
 /-! ### non-vacuity -/
 
